@@ -301,9 +301,15 @@ H("C06", "vk_fat", "c06_find_root32_two_clusters", tier="thorough", desc="FAT32 
 H("C06", "vk_fat", "c06_iterate_root32_two_clusters", tier="thorough", desc="FAT32 root over chain 2->4: listing", bounds="first cluster concrete, second fully symbolic, k symbolic", timeout=3600, cost=5, mem_gb=24)
 H("C06", "vk_fat", "c06_find_subdir16_two_clusters", tier="thorough", desc="FAT16 sub-directory over chain 3->5: lookup follows the chain", bounds="first cluster 16 concrete live entries, second cluster 16 slots fully symbolic, name symbolic", timeout=2400, cost=4, mem_gb=24)
 
+UW_DIR = [("memcmp", r".", 12),
+          ("find_entry_in_block|delete_entry_in_block", r".", 17),
+          ("FatVolume::find_directory_entry|FatVolume::delete_directory_entry|FatVolume::iterate_fat", r"chunks_exact", 17),
+          ("FatVolume::find_directory_entry|FatVolume::delete_directory_entry|FatVolume::iterate_fat", r".", 3),
+          ("FatVolume::write_new_directory_entry", r"chunks_exact", 17),
+          ("FatVolume::write_new_directory_entry", r".", 3)]
 PROPS["C03"] = dict(bounds="(in progress)", outside="")
 PROPS["C02"] = dict(bounds="(in progress)", outside="")
-H("C03", "vk_fat", "c03_new_entry_root16", desc="write_new_directory_entry: first free slot gets exactly the new entry, other bytes preserved, only the root block written; full root => NotEnoughSpace, nothing written", bounds="FAT16 root 16 slots fully symbolic, name/attr/clock symbolic", timeout=2400, cost=4, mem_gb=30)
+H("C03", "vk_fat", "c03_new_entry_root16", desc="write_new_directory_entry: first free slot gets exactly the new entry, other bytes preserved, only the root block written; full root => NotEnoughSpace, nothing written", bounds="FAT16 root: slots 0-3 and 15 fully symbolic, 4-14 live; name/attr/clock symbolic", unwindset=UW_DIR, timeout=2400, cost=4, mem_gb=30)
 H("C03", "vk_fat", "c03_delete_entry_root16", desc="delete_directory_entry: first matching slot marked 0xE5, nothing else changes; NotFound writes nothing", bounds="FAT16 root fully symbolic, name symbolic", timeout=1500, cost=3, mem_gb=20)
 H("C02", "vk_fat", "c02_write_entry_fat16_s0", desc="write_entry_to_disk (flush/close): owned slot == FAT layout of the entry, rest of block preserved", bounds="block and entry fully symbolic, slot 0", timeout=1500, cost=3, mem_gb=20)
 H("C02", "vk_fat", "c02_write_entry_fat16_s15", tier="thorough", desc="same, slot 15", bounds="block and entry fully symbolic", timeout=1500, cost=3, mem_gb=20)
@@ -409,7 +415,7 @@ PROPS["C02"] = dict(
     outside="end-to-end remount by this library and by an independent reader (composed from C15 layout + C06 reader + C01 read, not run); mtime = clock / archive bit after write (harness clock constant); create/mkdir/delete/truncate paths are C03/C07/C10's",
     assumptions=["FAT directory-slot layout = literal offsets in the harness (spec_slot_byte)"])
 PROPS["C03"] = dict(
-    bounds=_geo + "write_new_directory_entry and delete_directory_entry on a fully symbolic 16-slot FAT16 root with symbolic name/attributes/clock; chain conditions (old chain is a prefix, new clusters were free, long enough for the size, FAT frame) on the C01 write instances and C05 allocator instances",
+    bounds=_geo + "delete_directory_entry on a fully symbolic 16-slot FAT16 root; write_new_directory_entry on a root whose slots 0-3 and 15 are fully symbolic (4-14 live), symbolic name/attributes/clock; chain conditions (old chain is a prefix, new clusters were free, long enough for the size, FAT frame) on the C01 write instances and C05 allocator instances",
     outside="a global WF(pre) => WF(post) over a whole symbolic volume is not encoded (symbolic chain topology makes every block index symbolic); make_dir only for crash behaviour (C10); directory growth; unique names / dot entries",
     assumptions=[])
 PROPS["C04"] = dict(
